@@ -2,7 +2,7 @@
    CLOSE.  The property theorems, and nothing else; proofs in Proofs2*.v.
    All statements are over every list of events from the initial state. *)
 From Coq Require Import Lia.
-From VF Require Import Nfs41.Proofs2Examples Nfs41.Proofs2NoPanic Nfs41.Proofs2Excl Nfs41.Proofs2Expiry.
+From VF Require Import Nfs41.Proofs2Examples Nfs41.Proofs2NoPanic Nfs41.Proofs2Excl Nfs41.Proofs2Expiry Nfs41.Proofs2Lifetime.
 Open Scope N_scope.
 
 (* ---- one_owner_one_object (no hypothesis: the repaired code) -------------------------------------
@@ -30,6 +30,20 @@ Theorem one_owner_one_object : forall cfg c0 evs,
        /\ (forall o, In o (c_oofs c) -> NoDup (map lf_owner (of_lofs o))).
 Proof. exact one_owner_one_object_lemma. Qed.
 Print Assumptions one_owner_one_object.
+
+(* ... for the client's lifetime: across any event (from any reachable
+   state), the object registered for a lock-owner name of a client is the
+   one registered before, or a new one whose identity is at least the
+   allocation counter before the event -- larger than every identity used
+   so far (no hypothesis). *)
+Theorem lock_owner_object_stable : forall cfg c0 evs e c c' x x',
+  let st := reachable cfg c0 evs in
+  let st' := fst (step st e) in
+  In c (st_clients st) -> In c' (st_clients st') -> c_id c = c_id c' ->
+  In x (c_lowners c) -> In x' (c_lowners c') -> lo_key x = lo_key x' ->
+  lo_id x' = lo_id x \/ (st_nextlo st <= lo_id x' /\ lo_id x < lo_id x').
+Proof. exact lock_owner_object_stable_lemma. Qed.
+Print Assumptions lock_owner_object_stable.
 
 (* ---- exclusion through the NFS layer (only the ranges need to be valid) ----------------------------
    Every lock table the NFSv4.1 program builds -- any interleaving of LOCK,
